@@ -44,13 +44,42 @@ def _execute(setup: dict, schedule, rng, record: list):
     os.write(fd, b'this is not a NetCDF file' * 20)
     os.close(fd)
     setup['junk'] = junk
+    mdir = None
+    if any('merge' in sc for sc in setup['threads']):
+        # input files for merge(): written by a separate process, so that no thread of this
+        # process has created a store before the interleaving starts
+        import shutil
+
+        mdir = tempfile.mkdtemp(prefix='aeicverif-thr-', dir=base)
+        pid = os.fork()
+        if pid == 0:
+            code = 1
+            try:
+                from engines import store_gen as G
+
+                G.register_catalogue()
+                for k in range(2):
+                    with TrajectoryStore.create(base_file=os.path.join(mdir, f'in{k}.nc')) as ts:
+                        ts.add(G.build_traj(dict(n=2, cs=k + 1, fs=[], fid=None)))
+                code = 0
+            finally:
+                os._exit(code)
+        _, status = os.waitpid(pid, 0)
+        if status != 0:
+            raise RuntimeError('harness: could not prepare merge inputs')
+        setup['mdir'] = mdir
     try:
         return _execute_inner(setup, schedule, rng, record, TrajectoryStore)
     finally:
         os.unlink(junk)
+        if mdir:
+            import shutil
+
+            shutil.rmtree(mdir, ignore_errors=True)
 
 
 def _execute_inner(setup, schedule, rng, record, TrajectoryStore):
+    import os
 
     trace = Trace()
     policy = setup['policy']
@@ -94,7 +123,7 @@ def _execute_inner(setup, schedule, rng, record, TrajectoryStore):
         return pick
 
     opcode_funcs = ('__init__',) if setup.get('opcode') else ()
-    sched = T.Scheduler(choose, TRACE_FILES, opcode_funcs=opcode_funcs)
+    sched = T.Scheduler(choose, TRACE_FILES, opcode_funcs=opcode_funcs, max_steps=400000)
     events = []   # (seq, kind, thread, outcome)
 
     class SubStore(TrajectoryStore):
@@ -118,6 +147,23 @@ def _execute_inner(setup, schedule, rng, record, TrajectoryStore):
                         TrajectoryStore.open(base_file=setup['junk'])
                     except Exception as e:  # noqa: BLE001
                         sched.log('open_bad', name, outcome=type(e).__name__)
+                    continue
+                if act == 'merge':
+                    # merge() opens stores: from a thread that does not own the stores it must be
+                    # refused; from the first thread to touch a store it claims ownership
+                    s0 = sched.log('ctor.start', name)
+                    try:
+                        TrajectoryStore.merge(os.path.join(setup['mdir'], f'm_{name}.aeic-store'),
+                                              input_stores=[os.path.join(setup['mdir'], 'in0.nc'),
+                                                            os.path.join(setup['mdir'], 'in1.nc')])
+                    except RuntimeError as e:
+                        s1 = sched.log('ctor.end', name, outcome='refused')
+                        events.append((s0, s1, name, 'refused', str(e)[:80]))
+                    except Exception as e:  # noqa: BLE001 (inputs already taken by another merge, ...)
+                        sched.log('ctor.end', name, outcome='other:' + type(e).__name__)
+                    else:
+                        s1 = sched.log('ctor.end', name, outcome='ok')
+                        events.append((s0, s1, name, 'ok', 'merge'))
                     continue
                 if act in ('create', 'create_sub'):
                     s0 = sched.log('ctor.start', name)
@@ -237,6 +283,9 @@ def draw_setup(rng: random.Random, tier: str) -> dict:
                 sc.append('open_bad')
             elif r2 < 0.54:
                 sc.append('open_missing')
+        if rng.random() < 0.12:
+            # often as the very first store operation of the process
+            sc.insert(0 if rng.random() < 0.6 else rng.randint(0, len(sc)), 'merge')
         scripts.append(sc)
     r = rng.random()
     if r < 0.35:
